@@ -22,6 +22,9 @@ func clone(b []byte) []byte { return append([]byte(nil), b...) }
 // (except for the checksum-break kind). It returns the kind.
 func mutateNode(rng *hlib.Rand, data []byte, nodes []nodeInfo) string {
 	nd := nodes[rng.Intn(len(nodes))]
+	if len(nodes) > 1 && nd.depth == 0 && rng.Chance(2, 3) {
+		nd = nodes[rng.Intn(len(nodes))] // the root less often: most edits there just lose the root
+	}
 	a := nd.arity
 	off := nd.off
 	if off+16*a+16 > len(data) {
@@ -164,11 +167,11 @@ func mutateFile(rng *hlib.Rand, bf builtFile) hostile {
 		nm = 2 + rng.Intn(2)
 	}
 	for k := 0; k < nm; k++ {
-		m := rng.Intn(10)
+		m := rng.Intn(20)
 		switch {
-		case m < 6 && len(bf.nodes) > 0:
+		case m < 15 && len(bf.nodes) > 0:
 			h.kind += "+" + mutateNode(rng, h.data, bf.nodes)
-		case m == 6 || (m < 6 && len(bf.nodes) == 0):
+		case m == 15 || (m < 15 && len(bf.nodes) == 0):
 			h.kind += "+truncate"
 			k := rng.Intn(len(h.data) + 1)
 			if len(bf.nodes) > 0 && rng.Bool() {
@@ -181,12 +184,12 @@ func mutateFile(rng *hlib.Rand, bf builtFile) hostile {
 			if k < len(h.data) {
 				h.data = h.data[:k]
 			}
-		case m == 7:
+		case m == 16:
 			h.kind += "+claimed"
 			n := int64(len(h.data))
 			opts := []int64{n - 1, n + 1, n - 16, n + 16, n - 32, 0, 31, 32, 33, -1, -1 << 62, 1 << 50, (1 << 48) - 1, 1 << 48, int64(rng.Intn(len(h.data) + 1))}
 			h.claimed = opts[rng.Intn(len(opts))]
-		case m == 8:
+		case m == 17:
 			h.kind += "+extend"
 			h.data = append(h.data, rng.Bytes(1+rng.Intn(40))...)
 			h.claimed = int64(len(h.data))
